@@ -20,6 +20,15 @@ def build(rng, tier):
             inp = gen.gen_lat_input(rng.fork(f"{pid}i{j}"), p)
             inst = f"{pid}_{j}"
             cases.append(engcheck.Case(pid, inst, engcheck.std_history(inst, pid, inp), {"inp": inp, "kind": "lattice"}))
+    # the README shortest-path shape on graphs with cheap long chains and expensive shortcuts: the lattice is read through a non-key index
+    # inside its own stratum, keys are improved several iterations after their rows were queued, a later stratum reads the final values
+    sp = gen.sp_program()
+    progs["lsp"] = sp
+    mods.append(("lsp", eng.rs_module("lsp", sp)))
+    for j in range(12 if tier == "quick" else 80):
+        inp = gen.sp_input(rng.fork(f"lsp{j}"))
+        inst = f"lsp_{j}"
+        cases.append(engcheck.Case("lsp", inst, engcheck.std_history(inst, "lsp", inp), {"inp": inp, "kind": "shortest-paths"}))
     return progs, mods, cases
 
 
